@@ -268,7 +268,11 @@ def pmodel(inp):
 # ------------------------------------------------------------------ fits
 def gen_fit(tier, seed):
     for kind in ("xy", "indexed", "hist", "unbinned", "custom"):
-        for config in ("plain", "sources", "model-sources", "disabled-source", "constraints", "fixed+limited", "limit-at-zero", "one-sided-limit", "everything"):
+        for config in ("plain", "sources", "model-sources", "disabled-source", "constraints", "fixed+limited", "limit-at-zero", "one-sided-limit", "everything", "nll-gaussian", "nllr-gaussian", "variable-bins"):
+            if config in ("nll-gaussian", "nllr-gaussian") and kind not in ("xy", "indexed", "hist"):
+                continue
+            if config == "variable-bins" and kind != "hist":
+                continue
             if kind in ("unbinned", "custom") and config in ("sources", "model-sources", "disabled-source", "everything"):
                 continue
             for state in ("not-fitted", "fitted", "fitted+asymmetric"):
@@ -288,6 +292,16 @@ def make_fit(kind, config):
         f = UnbinnedFit(RAW, normal)
     else:
         f = CustomFit(custom_cost)
+    if config in ("nll-gaussian", "nllr-gaussian"):          # a Gaussian likelihood must not come back as a Poisson one
+        cf = config.replace("-", "_")
+        if kind == "xy":
+            f = XYFit([X, Y], line, cost_function=cf); f.add_error("y", 0.3)
+        elif kind == "indexed":
+            f = IndexedFit(Y, iline, cost_function=cf); f.add_error(0.3)
+        else:
+            f = HistFit(HistContainer(6, (-3, 3), fill_data=RAW), normal, cost_function=cf); f.add_error(0.7)
+    if config == "variable-bins":
+        f = HistFit(HistContainer(6, (-3, 3), bin_edges=[-3.0, -1.0, -0.5, 0.0, 0.5, 1.0, 3.0], fill_data=RAW), normal)
     ax = ("y",) if kind == "xy" else ()
     names = list(f.parameter_names)
     if config in ("sources", "everything"):
